@@ -9,6 +9,8 @@
 //           (alias_stream.go; defect repaired by /repo 6f3139f).
 //   sel 6   the real preempt action with topology-aware preemption on hierarchical capacity; law 118
 //           (preempt_stream.go; defects repaired by /repo 0a59b28, 8b56849).
+//   sel 8   the real allocate action with a handler ahead of the queue plugin failing its allocate
+//           callback (fault_stream.go); verdict = law 103 of the shared cycle entry.
 //   sel 7   JobEnqueueable votes and the real enqueue action, all three plugin modes; law 119
 //           (enqueue_stream.go).
 package main
@@ -66,7 +68,9 @@ func main() {
 		Run2: func(sel int, in []int64) (mi []int64, got []int64) {
 			before := assertFailures.Load()
 			defer func() {
-				if n := assertFailures.Load() - before; n > 0 {
+				// sel 8 (handler fault): the ledger going negative IS the defect looked for; the capability
+				// law on the final session is the judge there
+				if n := assertFailures.Load() - before; n > 0 && sel != 8 {
 					panic(fmt.Sprintf("%d assertion failure(s) (pkg/scheduler/util/assert) in the code under test", n))
 				}
 			}()
@@ -81,8 +85,8 @@ func main() {
 				// correspondence part: the model only validates the shape of the input
 				return in, []int64{1}
 			case 5:
-				if len(in) != 5 {
-					panic("alias case: 5 tokens expected")
+				if len(in) != 5 && len(in) != 6 {
+					panic("alias case: 5 or 6 tokens expected")
 				}
 				lastObs = runAliasCase(in)
 				return in, []int64{1}
@@ -94,6 +98,9 @@ func main() {
 				return in, []int64{1}
 			case 7:
 				lastObs = runEnqueueCase(in)
+				return in, []int64{1}
+			case 8:
+				lastObs = runFaultCase(in)
 				return in, []int64{1}
 			}
 			modelIn, got, vr := runVotes(in)
@@ -116,6 +123,9 @@ func main() {
 				return
 			case 7:
 				law(119, lastObs, "")
+				return
+			case 8:
+				law(103, lastObs, "")
 				return
 			}
 			li := last.lawInput()
@@ -157,6 +167,7 @@ func genRegressionStreams(rng *vh.Rng, n int, emit func(id string, sel int, in [
 	emitReclaim("reclaim-room-witness", []int64{2, 2, 0, 1, 2, 2, 1, 0, 1, kHier, 0})
 	emitAlias("alias-witness", []int64{5, 2, 2, 1, 0})
 	emitAlias("alias-witness-enqueue", []int64{5, 2, 2, 1, 1})
+	emitAlias("alias-witness-cousins", []int64{5, 2, 2, 1, 0, 1})
 	// the real preempt action (topology-aware dry run) and the real enqueue action.  A preempt case
 	// is non-trivial when an ancestor or leaf capability is set and there are victims to choose from;
 	// an enqueue case when some PodGroup is already Inqueue with minResources and another one is Pending
@@ -183,6 +194,15 @@ func genRegressionStreams(rng *vh.Rng, n int, emit func(id string, sel int, in [
 	emitPreempt("preempt-witness-closed", []int64{0, 4, 0, 2, 0, 1, 0, 1})
 	for k := int64(1); k <= 3; k++ {
 		emitEnqueue(fmt.Sprintf("enqueue-witness-%d", k), enqueueWitness(k))
+	}
+	// allocate with a failing allocate callback ahead of the queue plugin: non-trivial when queue 1
+	// asks for more than it may have (directed half of the stream)
+	emitFault := func(id string, in []int64) {
+		emit(id, 8, in, "allocate-handler-fault/proportion/gates=default", true, map[string]any{"failingTask": in[len(in)-1]})
+	}
+	emitFault("fault-witness", faultSpec(8, 2, 6, 6, true))
+	for i := 0; i < n/2; i++ {
+		emitFault(fmt.Sprintf("fault-%d", i), genFaultCase(rng.Fork()))
 	}
 	for i := 0; i < n; i++ {
 		emitReclaim(fmt.Sprintf("reclaim-%d", i), genReclaimCase(rng.Fork()))
